@@ -124,7 +124,7 @@ reg('C20', 'harness.twin', design_ref='6/C20',
 reg('C19', 'harness.validate', design_ref='6/C19',
     bounds={'quick': '23 signature shapes as plain functions (+ bound methods and callable instances for the simpler shapes) and up to 4 functools.partial variants each (fixing 1-3 positionals and/or one keyword); every call with 0-5 positional arguments and every subset of keywords from the pool {parameter names, keyword-only names, p, q}',
             'thorough': 'all 336 shapes x {function, bound method, callable instance} x all partial variants'},
-    outside='more than 5 positional arguments; keyword names outside the pool (assumed equivalent to p/q because the code only tests names for equality with parameter names - an assumption, not something the solver shows); builtins and partials of partials',
+    outside='more than 5 positional arguments; keyword names outside the pool (assumed equivalent to p/q because the code only tests names for equality with parameter names - an assumption, not something the solver shows); builtins, partials of partials, partials of bound methods / callable instances (probed once: validate raises AttributeError instead of TypeError for partial(instance, 1) and accepts some unbindable calls of partial(obj.method, 1); recorded in DESIGN.md, not claimed)',
     stubs=[], assumptions=['keyword names are concrete (a symbolic name would be unsound here, DESIGN.md 6/C19)', 'argument values are atoms: the verdict must not depend on them',
                             'every input is a finite structural choice, so one path is close to one concrete call form; the solver contributes the closure certificate and the counterexample'],
     expect_labels=['C19:agree', 'C19:validate', 'C19:never-called'])
